@@ -190,6 +190,7 @@ class FakeS3:
         self.emit = emit or (lambda e, **kw: None)
         self.point = point or (lambda kind='': None)
         self.latency_plan = None
+        self.log_body_sends = False
         self.objects = {}       # (bucket, key) -> bytes
         self.object_meta = {}   # (bucket, key) -> dict (how it was created)
         self.mpus = {}          # upload id -> dict
@@ -334,6 +335,8 @@ class FakeS3:
                 break
             chunks.append(c)
             if n:
+                if self.log_body_sends:
+                    self.emit('BodySend', len=len(c))
                 self.point('body-send')
             else:
                 # a second read to observe EOF like http.client does
